@@ -2476,7 +2476,8 @@ def ordered_get_last_as_filter(field):
     result = np.zeros(len(field), dtype=numba_bool)
     for i in range(len(field)-1):
         result[i] = field[i] != field[i+1]
-    result[-1] = True
+    if len(field) > 0:
+        result[-1] = True
     return result
 
 
